@@ -36,6 +36,11 @@ def run(ctx):
                     base["obj"] = 0
                     base.pop("dx", None)
                 top = 400 if ctx.thorough else (160 if nm in ("NLOPT_GN_CRS2_LM", "NLOPT_GN_ISRES", "NLOPT_GN_ESCH") else 60)
+                if nm == "NLOPT_LN_PRAXIS":
+                    # PRAXIS takes extra random steps only in its ill-conditioned mode: non-smooth valley, longer budgets
+                    base["obj"] = rng.choice([2, 4, 2])
+                    base["n"] = 3 if len(base["lb"]) >= 3 else base["n"]
+                    top = 1200 if ctx.thorough else 500
                 for N in range(1, top + 1):
                     q = dict(base)
                     q["maxeval"] = N
